@@ -179,7 +179,7 @@ def connected(cells):
 
 def pair(rng):
     mode = rng.choice(['random', 'random', 'nested', 'share_edge', 'share_corner', 'equal', 'disjoint', 'cross', 'reflex_corner',
-                       'in_hole', 'over_hole', 'b_holed', 'b_holed'])
+                       'in_hole', 'over_hole', 'under_hole', 'under_hole', 'b_holed', 'b_holed'])
     if mode == 'b_holed':
         # the second operand carries the holes (its own plane frame starts at another vertex than the first operand's)
         A = G.rect_cells(0, 0, rng.randint(6, 9), rng.randint(6, 9))
@@ -232,6 +232,10 @@ def pair(rng):
     hl = rect_loop(s.holes[0]); s.hole_loops = [hl[::-1] if rng.random() < 0.5 else hl]
     x = rng.randint(1, 7); y = rng.randint(1, 7)
     B = G.rect_cells(x, y, x + rng.randint(1, 3), y + rng.randint(1, 3))
+    if mode == 'under_hole':
+        x, y = rng.randint(2, 5), rng.randint(2, 5)
+        B = G.rect_cells(x, y, x + rng.randint(2, 3), y + rng.randint(2, 3))
+        return mode, Shape(rng, B), s       # the FIRST operand is the small one, inside the outline of the holed second operand
     return mode, s, Shape(rng, B)
 
 
@@ -250,7 +254,7 @@ def fam_lattice(ctx, rng):
     frame = G.rational_frame(rng); origin = G.rpt3(rng, 20)
     fa, fb = sa.face(frame, origin), sb.face(frame, origin)
     A, B = sa.cells, sb.cells
-    op = rng.choice(['union', 'intersection', 'difference', 'split', 'union_all'])
+    op = rng.choice(['union', 'intersection', 'difference', 'split', 'union_all'] + (['difference'] * 4 if mode == 'under_hole' else []))
     desc = {'op': op, 'relation': mode, 'a': sa.desc(), 'b': sb.desc(), 'frame': frame, 'origin': origin}
     box = box_of(sa.filled, sb.filled)
     holes = bool(sa.holes or sb.holes)
